@@ -424,6 +424,12 @@ func framingTag(m *msggen.Msg) string {
 		// framing headers without a body (304, answer to HEAD)
 		return "bodiless(" + t + ")"
 	}
+	switch m.Spec.Adjust {
+	case "te+cl":
+		t = "chunked+content-length"
+	case "unknown-length":
+		t = "unknown-length"
+	}
 	if len(m.Encoded) == 0 {
 		// Content-Length: 0 and "no framing header at all" are one class: both parse to http.NoBody. (When that
 		// marker is lost, net/http probes the body of GET-like requests with a 200 ms timer, so on a loaded
@@ -477,6 +483,12 @@ func snapshotTag(m *msggen.Msg) string {
 	t := m.Spec.Framing
 	if m.BodyOmitted {
 		t = "bodiless(" + t + ")"
+	}
+	switch m.Spec.Adjust {
+	case "te+cl":
+		t = "chunked+content-length"
+	case "unknown-length":
+		t = "unknown-length"
 	}
 	if m.Spec.Trailers > 0 {
 		t += "+trailers"
@@ -841,13 +853,19 @@ func main() {
 				remove()
 				atomic.AddInt64(&transitions, 2)
 				atomic.AddInt64(&snapshots, 1)
-				headOnly := !v.captures(m)
+				// (a request body of unknown length has no serialisation of its own - the sender picks one, net/http
+				// picks chunked - so only the head of its snapshot is compared; the wire bytes it is compared with
+				// were framed with Content-Length)
+				headOnly := !v.captures(m) || m.Spec.Adjust == "unknown-length"
 				if err != nil {
 					violate(fmt.Sprintf("messageview:%s:%s:snapshot_error", spec.Kind, snapshotTag(m)), fmt.Sprintf("%s with %s: snapshot/Reader failed: %v", spec, v.Name, err), rc)
 					continue
 				}
 				want := readParsed(m.Wire, isReq, headOnly, m.ForMethod)
 				gotp := readParsed(snap, isReq, headOnly, m.ForMethod)
+				if m.Spec.Adjust == "unknown-length" {
+					want.CL, gotp.CL = 0, 0
+				}
 				if want.Err != "" {
 					violate("harness:original_unparseable", fmt.Sprintf("%s: %s", spec, want.Err), rc)
 					continue
@@ -944,8 +962,8 @@ func main() {
 	rep.Coverage["violating_cases"] = violCount
 	rep.Coverage["states_per_family"] = perFamily
 	rep.Coverage["exhaustive"] = only == nil
-	rep.Coverage["rule"] = "cases = every message of msggen.BodySpace ∪ HeaderSpace ∪ EdgeSpace x every logger variant x every read mode (+ one skip-logging run per skipping variant, + one snapshot re-parse per messageview variant); states = distinct (message, logger variant) pairs; a message is non-trivial when its body is non-empty and it is chunked, close-delimited or content-coded (the paths where a logger can re-frame or mis-decode); failing-body family: every message of a sub-space (non-empty bodies x framings x {identity, gzip} x 3 content types) x fault kind {sender closes, connection error} x cut offsets (every offset of a body region of at most 96 bytes, else ±1 around each structural boundary) x 3 read modes x every logger variant; oracle: pass-through variants identical to the unlogged twin, buffering variants still fail and write only a prefix of the body; history family: every ordered pair (thorough: and triple) of messages over a pool of 11 x 7 logger set-ups (one logger object for all messages, one reused MessageView, mixed families) x forwarding order {fifo, lifo} x 2 read modes, all messages logged before the first is forwarded, a response that follows a request belongs to that request's exchange; oracle identity with the unlogged twins, and the reused view's last snapshot re-parses to the message it was loaded with last; stack family: every ordered pair of the 13 logger variants (thorough: and every triple over 6 representatives) attached to the same message of a sub-space x 2 read modes; oracle identity with the unlogged twin, no logger error, every logger recorded the exchange"
-	rep.Coverage["bounds"] = fmt.Sprintf("tier %s: body space = {request POST, response 200} x sizes %v x {Content-Length, close (responses), chunked x chunk lists %v x trailers 0..2 (coinciding chunk lists emitted once)} x content codings %v x content types requests %v / responses %v; header space = requests {GET,POST,PUT} x HTTP/1.1,1.0 x query pool x cookie pool x repeated/empty header pool x {CL 0, CL 5, chunked 0, chunked 5}, responses {200,201,301,302,404,204,304} x versions x Set-Cookie pool x header pool x Location pool x {CL, chunked, close} x sizes {0,5}, 204/304 with and without Content-Encoding: gzip; edge space = request methods {GET,DELETE,PATCH,OPTIONS,PUT} with a body, content types {absent, unparseable, form with parameters / upper case / non-UTF-8 parameter name / unparseable, multipart with quoted / without boundary / empty and typed parts} x framings x {identity, gzip, zlib deflate, unknown coding}, non-UTF-8 bytes in a query value and a header value, 206 x codings x framings, 304 and answers to HEAD {200,404,301} with Content-Length / chunked framing headers and no body, Location on {200,201,404}; read-buffer sizes {1 (61 for bodies > 4200 bytes, 1021 for bodies > 70000 bytes), 511, 4097, 65536, bytes.Buffer growth, bufio 4096}",
+	rep.Coverage["rule"] = "cases = every message of msggen.BodySpace ∪ HeaderSpace ∪ EdgeSpace x every logger variant x every read mode (+ one skip-logging run per skipping variant, + one snapshot re-parse per messageview variant); states = distinct (message, logger variant) pairs; a message is non-trivial when its body is non-empty and it is chunked, close-delimited or content-coded (the paths where a logger can re-frame or mis-decode); failing-body family: every message of a sub-space (non-empty bodies x framings x {identity, gzip} x 3 content types) x fault kind {sender closes, connection error} x cut offsets (every offset of a body region of at most 96 bytes, else ±1 around each structural boundary) x 3 read modes x every logger variant; oracle: pass-through variants identical to the unlogged twin, buffering variants still fail and write only a prefix of the body; history family: every ordered pair (thorough: and triple) of messages over a pool of 11 x 7 logger set-ups (one logger object for all messages, one reused MessageView, mixed families) x forwarding order {fifo, lifo} x 2 read modes, all messages logged before the first is forwarded, a response that follows a request belongs to that request's exchange; oracle identity with the unlogged twins, and the reused view's last snapshot re-parses to the message it was loaded with last; stack family: every ordered pair of the 13 logger variants (thorough: and every triple over 6 representatives) attached to the same message of a sub-space x 2 read modes; oracle identity with the unlogged twin, no logger error, every logger recorded the exchange; sub-space big: bodies of 65537 / 131072 / 1 MiB bytes in one piece x 28 stacks {marbl alone, in-memory body -> marbl, snapshotting logger -> marbl [-> snapshotting logger]} x {Write, direct reads with 65537-byte and 1 MiB buffers}"
+	rep.Coverage["bounds"] = fmt.Sprintf("tier %s: body space = {request POST, response 200} x sizes %v x {Content-Length, close (responses), chunked x chunk lists %v x trailers 0..2 (coinciding chunk lists emitted once)} x content codings %v x content types requests %v / responses %v; header space = requests {GET,POST,PUT} x HTTP/1.1,1.0 x query pool x cookie pool x repeated/empty header pool x {CL 0, CL 5, chunked 0, chunked 5}, responses {200,201,301,302,404,204,304} x versions x Set-Cookie pool x header pool x Location pool x {CL, chunked, close} x sizes {0,5}, 204/304 with and without Content-Encoding: gzip; edge space = request methods {GET,DELETE,PATCH,OPTIONS,PUT} with a body, content types {absent, unparseable, form with parameters / upper case / non-UTF-8 parameter name / unparseable, multipart with quoted / without boundary / empty and typed parts} x framings x {identity, gzip, zlib deflate, unknown coding}, non-UTF-8 bytes in a query value and a header value, 206 x codings x framings, 304 and answers to HEAD {200,404,301} with Content-Length / chunked framing headers and no body, Location on {200,201,404}, query strings with '=' inside values and names / empty names / flags, requests whose parsed form has Transfer-Encoding chunked AND a content length, or a body of unknown length (neither); read-buffer sizes {1 (61 for bodies > 4200 bytes, 1021 for bodies > 70000 bytes), 511, 4097, 65536, bytes.Buffer growth, bufio 4096}",
 		tier, sizesFor(tier), chunkingsFor(tier), msggen.Encodings, msggen.RequestCTs, msggen.ResponseCTs)
 	rep.Assumptions = []string{
 		"Request.Write / Response.Write of the parsed message stand for what the proxy forwards (the proxy calls Response.Write itself and hands requests to http.Transport, which serialises them with the same transfer writer)",
